@@ -61,6 +61,14 @@ Theorem loaded_config_exact : forall d order cf,
   /\ cf_activate cf = negb (d_activate d =? 0) /\ cf_metrics cf = (d_metrics d =? 1).
 Proof. exact load_in_exact. Qed.
 
+(** the health checks of an accepted file are the ones the state accepts (since the fix c916f85 in /repo) *)
+Theorem accepted_health_checks_valid : forall d order cf,
+  load_in d order = Ok cf -> Forall (fun c => hc_valid (cc_clu c) = true) (cf_clusters cf).
+Proof.
+  intros d order cf H. apply load_in_exact in H as [H _].
+  induction H as [|cd cc cds ccs Hm _ IH]; constructor; [|exact IH]. apply Hm.
+Qed.
+
 (** ** 2. loading the same file again over the state it produced changes nothing *)
 
 Theorem reload_idempotent : forall cf order order2,
